@@ -771,7 +771,7 @@ func tokenBased(p *Prog, r *Report, rule string) {
 
 func recvNamedIsFn(fn *ssa.Function, pkg, typ string) bool {
 	n := recvNamed(fn)
-	return n != nil && n.Obj().Name() == typ && n.Obj().Pkg() != nil && n.Obj().Pkg().Path() == pkgPath(pkg)
+	return n != nil && n.Obj().Pkg() != nil && n.Obj().Pkg().Path() == pkgPath(pkg) && canonTypeName(n) == typ
 }
 
 func sortedMembers(pkg *ssa.Package) []ssa.Member {
@@ -796,6 +796,7 @@ type memberRole struct {
 	g          *ssa.Global
 	wrappers   []*ssa.Function // name -> bool functions that only return fn(name, table)
 	anyOf      bool            // fn only returns anyOf(table, name.equal) through a recognised membership helper
+	nameParam  int             // index in fn.Params of the queried name (0 unless fn is a helper that takes it elsewhere)
 }
 
 // membershipAnyOf: f(name) only returns helper(<table g>, name.equal) where helper is a membership
@@ -864,6 +865,12 @@ func membershipAnyOf(p *Prog, f *ssa.Function, g *ssa.Global) bool {
 // membershipWrapperOf: f(name) only returns helper(name, <table g>); gives the helper and the
 // index of its table parameter.
 func membershipWrapperOf(p *Prog, f *ssa.Function, g *ssa.Global) (*ssa.Function, int) {
+	h, idx, _ := membershipWrapperOf2(p, f, g)
+	return h, idx
+}
+
+// membershipWrapperOf2 also reports which parameter of the helper receives the queried name.
+func membershipWrapperOf2(p *Prog, f *ssa.Function, g *ssa.Global) (*ssa.Function, int, int) {
 	var helper *ssa.Function
 	idx := -1
 	var theCall *ssa.Call
@@ -882,20 +889,23 @@ func membershipWrapperOf(p *Prog, f *ssa.Function, g *ssa.Global) (*ssa.Function
 		}
 	})
 	if helper == nil || len(theCall.Call.Args) == 0 {
-		return nil, -1
+		return nil, -1, 0
 	}
 	// the queried name is passed on as the helper's first argument and every return is the helper's verdict
 	passes := false
-	for _, o := range origins(theCall.Call.Args[0]) {
-		if o == ssa.Value(f.Params[0]) {
-			passes = true
-		}
-		if al, ok := o.(*ssa.Alloc); ok && al.Comment == f.Params[0].Name() {
-			passes = true
+	nameIdx := 0
+	for ai, arg := range theCall.Call.Args {
+		for _, o := range origins(arg) {
+			if o == ssa.Value(f.Params[0]) {
+				passes, nameIdx = true, ai
+			}
+			if al, ok := o.(*ssa.Alloc); ok && al.Comment == f.Params[0].Name() {
+				passes, nameIdx = true, ai
+			}
 		}
 	}
 	if !passes {
-		return nil, -1
+		return nil, -1, 0
 	}
 	okRet := true
 	eachInstr(f, func(in ssa.Instruction) {
@@ -906,9 +916,9 @@ func membershipWrapperOf(p *Prog, f *ssa.Function, g *ssa.Global) (*ssa.Function
 		}
 	})
 	if !okRet {
-		return nil, -1
+		return nil, -1, 0
 	}
-	return helper, idx
+	return helper, idx, nameIdx
 }
 
 func membershipRole(p *Prog, g *ssa.Global) *memberRole {
@@ -933,8 +943,8 @@ func membershipRole(p *Prog, g *ssa.Global) *memberRole {
 				}
 				if !eq {
 					// a one-line wrapper `return helper(name, table)`: the test itself lives in the helper
-					if h, idx := membershipWrapperOf(p, f, g); h != nil {
-						return &memberRole{fn: h, sliceParam: idx, g: g, wrappers: []*ssa.Function{f}}
+					if h, idx, nameIdx := membershipWrapperOf2(p, f, g); h != nil {
+						return &memberRole{fn: h, sliceParam: idx, g: g, wrappers: []*ssa.Function{f}, nameParam: nameIdx}
 					}
 				}
 				return &memberRole{fn: f, sliceParam: -1, g: g}
@@ -992,6 +1002,9 @@ func (m *memberRole) isCall(call ssa.CallInstruction) (ssa.Value, bool) {
 		if !hit {
 			return nil, false
 		}
+	}
+	if m.nameParam < len(args) {
+		return args[m.nameParam], true
 	}
 	return args[0], true
 }
@@ -1075,10 +1088,10 @@ func (m *memberRole) check(p *Prog) []string {
 	for _, ec := range eqCalls {
 		subj := false
 		for _, o := range origins(ec.Call.Args[0]) {
-			if o == ssa.Value(fn.Params[0]) {
+			if o == ssa.Value(fn.Params[m.nameParam]) {
 				subj = true
 			}
-			if al, ok := o.(*ssa.Alloc); ok && al.Comment == fn.Params[0].Name() {
+			if al, ok := o.(*ssa.Alloc); ok && al.Comment == fn.Params[m.nameParam].Name() {
 				subj = true // value receiver spilled to a local
 			}
 		}
